@@ -140,11 +140,12 @@ func ResourcePayload(t *rapid.T, ts *TypeSpec, o PayloadOpts) *PayloadCase {
 
 		switch {
 		case mode == 0:
+			// (links and meta may be empty objects, null, or not there at all)
 			f.Form = "links-only"
-			f.Text = `{"links":{"self":"/x","related":"/y"}}`
+			f.Text = rapid.SampledFrom([]string{`{"links":{"self":"/x","related":"/y"}}`, `{"links":{"self":"/x","related":"/y"}}`, `{"links":{}}`, `{"links":null}`, `{}`}).Draw(t, "linksonly-"+r.FromName)
 		case mode == 1:
 			f.Form = "meta-only"
-			f.Text = `{"meta":{"data":1}}`
+			f.Text = rapid.SampledFrom([]string{`{"meta":{"data":1}}`, `{"meta":{"data":1}}`, `{"meta":{}}`, `{"meta":null,"links":{}}`}).Draw(t, "metaonly-"+r.FromName)
 		case mode == 2:
 			f.Form, f.HasData = "data-null", true
 			f.Text = `{"data":null}`
